@@ -114,6 +114,9 @@ SARGS = {
     6: ((), {"x": 1, "y": 2}), 7: ((), dict([("y", 2), ("x", 1)])), 8: ((-1,), {"x": 1}),
     9: (("boom",), {}),        # `__init__` raises ValueError for this one
     10: (("clear",), {}),      # `__init__` of a TRUE singleton calls clear_true_singleton() (re-entrant global clear)
+    # keyword values that are dicts filled in different orders: the same key
+    11: ((), {"style": {"colour": "red", "width": 2}}),
+    12: ((), {"style": dict([("width", 2), ("colour", "red")])}),
 }
 
 
@@ -315,7 +318,7 @@ class Real:
     def sargs_index(self, args, kwargs):
         for k, (a, kw) in SARGS.items():
             if a == args and kw == kwargs and [type(x) for x in a] == [type(x) for x in args] \
-                    and list(kw) == list(kwargs):
+                    and list(kw) == list(kwargs) and repr(kw) == repr(kwargs):
                 return k
         return 99
 
@@ -997,6 +1000,19 @@ class Real:
             names = [c.__name__ for c in self.TS]
             inits = ["%d:%d:%d" % (n, names.index(cn), self.sargs_index(a, kw)) for (n, cn, a, kw) in self.ts_log]
             return "ts inits=[%s]" % ",".join(inits)
+        if op == "ssalli":
+            # get_all consumed INCREMENTALLY: one item is taken, then another class on the same metaclass
+            # constructs, then the rest is taken — the report is the snapshot of the moment of the first item
+            from edgegraph.structure import singleton
+            it = singleton.get_all_semi_singleton_instances(self.SS[int(toks[1][1:])])
+            got = []
+            first = next(it, None)
+            if first is not None:
+                got.append(first)
+            args, kwargs = SARGS[int(toks[3][1:])]
+            new = self.SS[int(toks[2][1:])](*args, **kwargs)
+            got += list(it)
+            return "ok [%s] %s" % (",".join(self.inst_name(self.S, o, "S") for o in got), self.inst_name(self.S, new, "S"))
         if op in ("ssadd", "ssdrop", "sscheck", "ssall", "ssclear"):
             from edgegraph.structure import singleton
             if op == "ssadd":
